@@ -10,6 +10,9 @@ def main(argv):
         print("usage: check <ID> [--tier quick|thorough] | replay <file>")
         return 2
     cmd = argv[0]
+    if cmd in ("replay", "run1", "repeat-exec"):
+        from . import isolate
+        isolate.THROWAWAY[0] = True          # this process exists for one plan only
     if cmd == "replay":
         boot.ensure_hashseed()
         from . import batch
